@@ -265,6 +265,8 @@ func runC10(c *Ctx) {
 		r.OK("C10.no-panic.mustcompile", "", "MustCompile argument %q compiled by the checker without error", pattern)
 	}
 
+	pureScan(c, "C10.pure.no-package-state", fn, c.P.Func("pkg/bip32path", "Path.String"), c.P.Func("pkg/bip32path", "Path.UnmarshalText"), c.P.Func("pkg/bip32path", "Path.MarshalText"))
+
 	// ---- printer
 	if sf := c.fn("pkg/bip32path", "Path.String"); sf != nil {
 		sb := ana.NewBuilder(c.P, sf.Function)
